@@ -48,6 +48,8 @@ def parseEv (s : String) : Option Ev :=
     else if s.startsWith "B" then
       match ((s.drop 1).toString.splitOn ".").mapM (·.toNat?) with
       | some [n, hd, bb, eof] => some (.bytes { n := n, headDone := hd == 1, bodyBytes := bb, eof := eof == 1 })
+      | some [n, hd, bb, eof, im, rd] =>
+        some (.bytes { n := n, headDone := hd == 1, bodyBytes := bb, eof := eof == 1, interim := im == 1, redirect := rd == 1 })
       | some [n, hd, bb, eof, im] =>
         some (.bytes { n := n, headDone := hd == 1, bodyBytes := bb, eof := eof == 1, interim := im == 1 })
       | _ => none
@@ -79,7 +81,7 @@ def render (cfg : Cfg) (s : St) : String :=
   let live := if live.isEmpty then "-" else ",".intercalate live
   let follow := if !s.pc.isDone then "n/a" else if cfg.limit1 && s.slot != .none then "E_TIMEOUT" else "ok"
   s!"r={r} hdr={hdr} c={showC s.cpc} acq={if s.slot = .none then 0 else 1} wait={s.poolQ.length} " ++
-  s!"pooled={if s.pooled && s.tr = .open then 1 else 0} open={if s.tr = .open then 1 else 0} live={live} " ++
+  s!"pooled={(if s.pooled && s.tr = .open then 1 else 0) + s.oldPooled} open={(if s.tr = .open then 1 else 0) + s.oldPooled} live={live} " ++
   s!"dnsw={(if s.dnsWaitR then 1 else 0) + (if s.dnsWaitC then 1 else 0)} " ++
   s!"lookups={match s.lookup with | .none => 0 | _ => 1} dnscalls={s.dnsCalls} follow={follow} " ++
   s!"cnl={if s.pc.isDone then toString s.cancelling else "-"}"
